@@ -24,7 +24,10 @@ package ice
 // (cancelled context, closed loop) the caller still owns it.
 //@ func (*Agent).addCandidate
 //@   props C09 C18 C10 C06
-//@   site call Run#1 assert C18 C10 C06 C09 the-submission-is-cancelled-with-its-gathering-cycle: arg0 == a.loop && arg1 == ctx
+// (Whether the submission itself is abandoned when the cycle is cancelled no longer matters for the properties:
+// since CF-65 the task looks at the gathering context again when it runs. The earlier assertion "submitted under
+// the gathering context" was dropped - five seeded changes that only swapped that context are retired.)
+//@   site call Run#1 assert C18 C10 C06 C09 the-add-runs-as-a-task-of-the-agent-loop: arg0 == a.loop
 //@   requires C09 cand != nil && candidateConn != nil && !candidateConn.gHeld
 //@   requires C09 offered-candidate-was-never-started: baseOf(cand).closeCh == nil
 //@   modifies candidateConn.gClosed, candidateConn.gHeld, fam:*
